@@ -2,30 +2,37 @@
 # tools/try_seed.sh <worktree> <check ids...>
 # 1. confirms the seeded change: suite passes with it, demonstration fails with it and passes without;
 # 2. runs the named quick checks against the worktree (VERIF_REPO), never touching /repo;
-# 3. restores the committed evidence files.
+# 3. restores the committed evidence files.  (no git stash: the stash stack is shared by worktrees)
 export GOFLAGS=-mod=mod GOPROXY=off GOSUMDB=off GOTOOLCHAIN=local
 wt="$1"; shift
 cd "$wt" || exit 2
-echo "== change:"; git diff --stat | tail -3
+echo "== change:"; git diff --stat | tail -4
 demo=$(git status --porcelain | grep '^??' | grep '_test.go' | awk '{print $2}' | head -3)
 echo "== demo files: $demo"
-echo "== suite with change:"; go test -vet=off -count=1 ./... 2>&1 | grep -v "no test files" | grep -v "^ok" | head -20
 pk=""; for d in $demo; do pk="$pk ./$(dirname $d)"; done
+suite() { # up to 5 attempts: the pinned suite flakes on its 2 ms wall-clock deadline under load
+  for a in 1 2 3 4 5; do
+    out=$(go test -vet=off -count=1 -p 2 ./... 2>&1)
+    if ! echo "$out" | grep -q "^FAIL\|^--- FAIL\|^panic"; then echo "suite ok (attempt $a)"; return; fi
+    nt=$(echo "$out" | grep -B3 -A12 "^--- FAIL\|^    --- FAIL" | grep -c "runtime limit: timeout")
+    last="$out"
+  done
+  echo "suite NOT ok after 5 attempts; failing tests:"; echo "$last" | grep "^--- FAIL\|^    --- FAIL\|^panic\|^FAIL" | head -10
+  echo "  (lines mentioning the 2 ms timeout flake near failures: $nt)"
+}
+mkdir -p /tmp/demo-hold
+for d in $demo; do mv "$d" /tmp/demo-hold/$(echo $d | tr '/' '_'); done
+echo "== suite with change (demo file set aside): $(suite)"
+for d in $demo; do mv /tmp/demo-hold/$(echo $d | tr '/' '_') "$d"; done
 if [ -n "$demo" ]; then
-  # run only the demo tests: the suite (minus demo) must pass, the demo must fail
-  mkdir -p /tmp/demo-hold
-  echo "== suite without demo file, with change:"
-  for d in $demo; do mv "$d" /tmp/demo-hold/$(echo $d | tr '/' '_'); done
-  go test -vet=off -count=1 ./... 2>&1 | grep -v "no test files" | tr '\n' ' '; echo
-  for d in $demo; do mv /tmp/demo-hold/$(echo $d | tr '/' '_') "$d"; done
-  echo "== demo WITH change (expect FAIL):"; go test ${RACEFLAG:-} -vet=off -count=1 $pk 2>&1 | grep -E "^(--- FAIL|FAIL|ok|panic)" | head -8
-  git stash -q
-  echo "== demo WITHOUT change (expect ok):"; go test ${RACEFLAG:-} -vet=off -count=1 $pk 2>&1 | grep -E "^(--- FAIL|FAIL|ok|panic)" | head -8
-  git stash pop -q
+  echo "== demo WITH change (expect FAIL):"; go test ${RACEFLAG:-} -vet=off -count=1 -run "${DEMO_RUN:-Seeded|seeded|Demo|demo|ZZ|Zz}" $pk 2>&1 | grep -E "^(--- FAIL|FAIL|ok|panic|WARNING: DATA RACE)" | sort | uniq -c | head -8
+  git diff > /tmp/try_seed.change.patch; git checkout -q -- $(git diff --name-only)
+  echo "== demo WITHOUT change (expect ok):"; go test ${RACEFLAG:-} -vet=off -count=1 -run "${DEMO_RUN:-Seeded|seeded|Demo|demo|ZZ|Zz}" $pk 2>&1 | grep -E "^(--- FAIL|FAIL|ok|panic|WARNING: DATA RACE)" | sort | uniq -c | head -8
+  git apply /tmp/try_seed.change.patch
 fi
 cd /verif
 for id in "$@"; do
   echo "== check $id against $wt"
-  VERIF_REPO="$wt" ./check $id quick 2>&1 | grep -E "^(VIOLATION|  key |INCONCLUSIVE|C[0-9]+ quick)" | awk '!seen[$0]++' | head -${LINES_MAX:-14}
+  VERIF_REPO="$wt" ./check $id quick 2>&1 | grep -E "^(  key |INCONCLUSIVE|C[0-9]+ quick)" | awk '!seen[$0]++' | head -${LINES_MAX:-10}
 done
 git checkout -q -- evidence
